@@ -678,6 +678,12 @@ func (encryptor *QueryDataEncryptor) encryptValuesWithPlaceholders(ctx context.C
 			copy(values, oldValues)
 		}
 		changed = true
+		// Bind packet may supply less values than statement has placeholders (database will reject it)
+		if valueIndex < 0 || valueIndex >= len(values) {
+			logrus.WithFields(logrus.Fields{"index": valueIndex, "column": columnName}).
+				Debug("Placeholder index is out of range of bound values")
+			return oldValues, false, base.ErrInvalidPlaceholder
+		}
 		setting := schema.GetColumnEncryptionSettings(columnName)
 		valueData, err := values[valueIndex].GetData(setting)
 		if err != nil {
